@@ -21,6 +21,7 @@
 -/
 import KskmProofs.Lemmas.C18Run
 import KskmProofs.Lemmas.C18Render
+import KskmProofs.Lemmas.C18Read
 import KskmProofs.C14
 namespace Kskm.C18
 
@@ -330,8 +331,9 @@ theorem document_shape (ext : Externals) (args : TaArgs) (cfg : TaConfig) (tok :
     need none: hypothesis `AttrSafe`.
 
     PARTIAL because "well-formed" is stated as "is the plain serialisation of a tree whose free-text
-    attribute values need no escaping", not against an XML grammar; that a standard parser reads the
-    tree back is checked by the correspondence run (ElementTree).  The hypothesis is necessary:
+    attribute values need no escaping", not against an XML grammar.  The full statement — a reader written
+    from the XML 1.0 productions reads the document and obtains this tree — is `C18_document_wellformed`
+    below; this theorem is kept as the first half of its proof.  The hypothesis is necessary:
     `unescaped_id_witness` below. -/
 theorem rendering_wellformed_partial (ta : TrustAnchorDoc) (_hid : AttrSafe ta.id)
     (_hlabels : ∀ d ∈ ta.keyDigests, AttrSafe d.id) :
@@ -348,6 +350,174 @@ theorem unescaped_id_witness :
   refine ⟨?_, by decide +kernel⟩
   intro h
   exact (h '"' (by simp)).1 rfl
+
+/-! ### The document is well-formed XML and MEANS the tree — against an XML grammar
+
+`XmlSpec.stdRead` (lean/Kskm/XmlSpec.lean) is a reading of XML documents written from the XML 1.0 productions
+(document, XMLDecl, STag / ETag / EmptyElemTag with the well-formedness constraints "Element Type Match" and
+"Unique Att Spec", Attribute, AttValue, CharData without `]]>`, Char, S, line-end and attribute-value
+normalisation), independent of the writer; it answers a tree, `malformed`, or `outside` (the text uses
+references, comments, … which the subset does not read).  C12's specification could not be used directly: it is
+a RELATION between `PlainXml` trees with a layout and their text (`renderT` / `valT`), not a reader, its texts are
+stripped and its attribute values non-empty, and this document has mixed content (line breaks between elements
+are text nodes of the tree).
+
+Which values are what:
+  * FREE TEXT, written unescaped by the code: the identifier (`--id`, else `uuid4()`), `source`, `zone`, and the
+    `id` of every entry (the configured key label).  Hypotheses `AttrClean` / `TextClean`: no `"` `<` `&` (and no
+    tab / line break, which a reader normalises to a space) in attribute values; no `<` `&` `>` and no carriage
+    return in the zone, which is not empty; XML `Char`s only.  Necessary: `unescaped_id_witness`,
+    `unescaped_id_not_wellformed`, `unescaped_id_other_meaning`.
+  * GENERATED, always safe whatever the numbers (`generated_values_safe`): key tag, algorithm, digest type
+    (decimal), the digest (upper-case hex), validFrom / validUntil (`format_datetime`).
+  * The digest must not be EMPTY (`<Digest></Digest>` has no text node); SHA-256 digests have 32 octets, the model's
+    hash is a parameter, hence the hypothesis. -/
+
+/-- the characters of `s` need no escaping, neither in an attribute value nor as element content -/
+def Harmless (s : String) : Prop := ∀ c ∈ s.toList, XmlSpec.attrCharOk c = true ∧ XmlSpec.textCharOk c = true
+
+/-- **Generated values are always safe** — unconditionally, from their generators: for EVERY key tag,
+    algorithm, digest type, digest and instant. -/
+theorem generated_values_safe (d : KeyDigest) :
+    Harmless (toString d.keyTag) ∧ Harmless (toString d.algorithm) ∧ Harmless (toString d.digestType) ∧
+    Harmless (upperHex d.digest) ∧ Harmless (formatDatetime d.validFrom) ∧
+    (∀ u, d.validUntil = some u → Harmless (formatDatetime u)) :=
+  ⟨fun c hc => genChar_ok (gen_intRepr _ c hc), fun c hc => genChar_ok (gen_natRepr _ c hc),
+   fun c hc => genChar_ok (gen_natRepr _ c hc), fun c hc => genChar_ok (gen_upperHex _ c hc),
+   fun c hc => genChar_ok (gen_formatDatetime _ c hc), fun u _ c hc => genChar_ok (gen_formatDatetime u c hc)⟩
+
+/-- **The exported document is well-formed XML and means the tree.**  For every trust anchor whose free
+    text is clean and whose digests are not empty, the grammar-level reader reads the document, and what
+    it reads is `docTree ta`: the root `TrustAnchor` with `id` and `source`, the `Zone`, and one `KeyDigest`
+    per exported key — `id`, `validFrom`, `validUntil` when configured, `KeyTag`, `Algorithm`, `DigestType`,
+    `Digest` — in the order of `validFrom` (`entries_sorted`), nothing else. -/
+theorem C18_document_wellformed (ta : TrustAnchorDoc) (hid : AttrClean ta.id) (hsrc : AttrClean ta.source)
+    (hzone : TextClean ta.zone) (hent : ∀ d ∈ ta.keyDigests, AttrClean d.id ∧ d.digest ≠ []) :
+    XmlSpec.stdRead ta.toXmlDoc.toList = .ok (docTree ta).toSpec := by
+  have hg := good_docTree ta hid hsrc hzone hent
+  rw [toXmlDoc_eq_render, String.toList_append, xmlDeclLine_toList, render_toList]
+  rw [docTree_toSpec] at hg ⊢
+  have := XmlSpec.stdRead_render _ _ _ hg
+  simpa [List.append_assoc] using this
+
+/-- … and so is the text `print` writes (the document and a line break) -/
+theorem C18_printed_document_wellformed (ta : TrustAnchorDoc) (hid : AttrClean ta.id) (hsrc : AttrClean ta.source)
+    (hzone : TextClean ta.zone) (hent : ∀ d ∈ ta.keyDigests, AttrClean d.id ∧ d.digest ≠ []) :
+    XmlSpec.stdRead (ta.toXmlDoc ++ "\n").toList = .ok (docTree ta).toSpec := by
+  have hg := good_docTree ta hid hsrc hzone hent
+  rw [String.toList_append, toXmlDoc_eq_render, String.toList_append, xmlDeclLine_toList, render_toList]
+  rw [docTree_toSpec] at hg ⊢
+  have := XmlSpec.stdRead_render_ws _ _ _ ['\n'] hg (by decide)
+  simpa [List.append_assoc] using this
+
+/-- the anchor a successful run exports has clean source and zone (the constants of the code), and — when the
+    identifier and the configured labels are clean and the hash never answers the empty string — clean free text -/
+theorem run_anchor_clean (ext : Externals) (args : TaArgs) (cfg : TaConfig) (tok : Token)
+    (s s' : TokState) (res : TaResult) (h : trustanchor ext args cfg tok s = (.ok res, s'))
+    (hid : AttrClean ((truthyStr args.id).getD args.uuid))
+    (hlabels : ∀ k ∈ configured cfg, AttrClean k.label)
+    (hhash : ∀ m dg, ext.hash .sha256 m = some dg → dg ≠ []) :
+    AttrClean res.ta.id ∧ AttrClean res.ta.source ∧ TextClean res.ta.zone ∧
+      ∀ d ∈ res.ta.keyDigests, AttrClean d.id ∧ d.digest ≠ [] := by
+  obtain ⟨hz, hs, hi, _, _⟩ := document_shape ext args cfg tok s s' res h
+  obtain ⟨_, _, _, _, _, hex⟩ := unconfigured_never_exported ext args cfg tok s s' res h
+  refine ⟨by rw [hi]; exact hid, by rw [hs]; unfold AttrClean taSource; decide +kernel,
+    by rw [hz]; unfold TextClean; decide +kernel, ?_⟩
+  intro d hd
+  obtain ⟨_, ksk, _, _, hspec, hk, hlab⟩ := hex d hd
+  obtain ⟨_, _, _, _, _, _, hdg, _, _⟩ := hspec
+  exact ⟨by rw [hlab]; exact hlabels ksk hk, hhash _ _ hdg⟩
+
+/-- **… of a run**: when the export succeeds, the identifier and the configured labels are clean and the
+    hash never answers the empty string, the document is well-formed and means `docTree` of the exported set
+    (source and zone are the constants of the code: clean). -/
+theorem C18_run_document_wellformed (ext : Externals) (args : TaArgs) (cfg : TaConfig) (tok : Token)
+    (s s' : TokState) (res : TaResult) (h : trustanchor ext args cfg tok s = (.ok res, s'))
+    (hid : AttrClean ((truthyStr args.id).getD args.uuid))
+    (hlabels : ∀ k ∈ configured cfg, AttrClean k.label)
+    (hhash : ∀ m dg, ext.hash .sha256 m = some dg → dg ≠ []) :
+    XmlSpec.stdRead res.ta.toXmlDoc.toList = .ok (docTree res.ta).toSpec := by
+  obtain ⟨h1, h2, h3, h4⟩ := run_anchor_clean ext args cfg tok s s' res h hid hlabels hhash
+  exact C18_document_wellformed res.ta h1 h2 h3 h4
+
+/-- the text a run hands out: the content of the file, or what is printed -/
+def outputText : TaOutput → String
+  | .file _ content => content
+  | .stdout text => text
+
+/-- **… whatever the place**: the text written to the file, or printed, is well-formed XML and means the tree -/
+theorem C18_run_output_wellformed (ext : Externals) (args : TaArgs) (cfg : TaConfig) (tok : Token)
+    (s s' : TokState) (res : TaResult) (h : trustanchor ext args cfg tok s = (.ok res, s'))
+    (hid : AttrClean ((truthyStr args.id).getD args.uuid))
+    (hlabels : ∀ k ∈ configured cfg, AttrClean k.label)
+    (hhash : ∀ m dg, ext.hash .sha256 m = some dg → dg ≠ []) :
+    XmlSpec.stdRead (outputText res.output).toList = .ok (docTree res.ta).toSpec := by
+  obtain ⟨h1, h2, h3, h4⟩ := run_anchor_clean ext args cfg tok s s' res h hid hlabels hhash
+  obtain ⟨_, _, _, hout, _⟩ := document_shape ext args cfg tok s s' res h
+  cases hf : trustanchorFilename args cfg with
+  | some path =>
+    rw [hf] at hout
+    rw [hout]
+    exact C18_document_wellformed res.ta h1 h2 h3 h4
+  | none =>
+    rw [hf] at hout
+    rw [hout]
+    exact C18_printed_document_wellformed res.ta h1 h2 h3 h4
+
+/-- the hypotheses of the run theorems are met by the concrete run `exRun` below (identifier "ta-1", labels
+    "Ka" / "Kb", a hash answering two octets) -/
+example : AttrClean ((truthyStr (some "ta-1")).getD "") ∧ (∀ l ∈ ["Ka", "Kb"], AttrClean l) := by
+  refine ⟨by unfold AttrClean; decide +kernel, ?_⟩
+  intro l hl
+  simp only [List.mem_cons, List.not_mem_nil, or_false] at hl
+  rcases hl with rfl | rfl <;> (unfold AttrClean; decide +kernel)
+
+/-- a concrete two-entry anchor (one with validUntil, a negative-looking nothing: ordinary values) meets
+    the hypotheses -/
+def exTa : TrustAnchorDoc :=
+  { id := "380DC50D-484E-40D0-A3AE-68F2B18F61C7", source := taSource, zone := ".",
+    keyDigests := [
+      { id := "Kjqmt7v", keyTag := 20326, algorithm := 8, digest := [0xE0, 0x6D, 0x44, 0xB8], validFrom := 1486771200000000 },
+      { id := "Klajeyz", keyTag := 19036, algorithm := 8, digest := [0x49, 0xAA, 0xC1, 0x1D], validFrom := 1279152000000000,
+        validUntil := some 1547164800000000 }] }
+
+example : XmlSpec.stdRead exTa.toXmlDoc.toList = .ok (docTree exTa).toSpec :=
+  C18_document_wellformed exTa (by unfold AttrClean; decide +kernel) (by unfold AttrClean; decide +kernel)
+    (by unfold TextClean; decide +kernel)
+    (by
+      intro d hd
+      simp only [exTa, List.mem_cons, List.not_mem_nil, or_false] at hd
+      rcases hd with rfl | rfl <;> exact ⟨by unfold AttrClean; decide +kernel, by decide⟩)
+
+/-- the reading of a one-entry document, evaluated: root, attributes, the element children with their attributes
+    (one entry: `mergeSort` on longer lists does not reduce in the kernel) -/
+example : (match XmlSpec.stdRead ({ exTa with keyDigests := exTa.keyDigests.drop 1 } : TrustAnchorDoc).toXmlDoc.toList with
+    | .ok (.elem n a cs) =>
+      (String.ofList n, a.map (fun p => String.ofList p.1),
+       cs.filterMap (fun c => match c with
+         | .elem m b _ => some (String.ofList m, b.map (fun p => (String.ofList p.1, String.ofList p.2)))
+         | _ => none))
+    | _ => ("", [], [])) =
+    ("TrustAnchor", ["id", "source"],
+     [("Zone", []),
+      ("KeyDigest", [("id", "Klajeyz"), ("validFrom", "2010-07-15T00:00:00+00:00"), ("validUntil", "2019-01-11T00:00:00+00:00")])]) := by
+  decide +kernel
+
+/-- the boundary again, against the grammar: with the identifier `a"b` the exported text is NOT well-formed
+    XML (the specification reader says `malformed`: a name or `>` must follow the closing quote) -/
+theorem unescaped_id_not_wellformed :
+    (match XmlSpec.stdRead ({ id := String.ofList ['a', '"', 'b'], source := "s", zone := ".", keyDigests := [] } :
+        TrustAnchorDoc).toXmlDoc.toList with
+     | .error .malformed => true
+     | _ => false) = true := by decide +kernel
+
+/-- … and with the identifier `a" x="1` the text IS well-formed but means another tree: the root has three
+    attributes, `id` is `a` -/
+theorem unescaped_id_other_meaning :
+    (match XmlSpec.stdRead ({ id := "a\" x=\"1", source := "s", zone := ".", keyDigests := [] } :
+        TrustAnchorDoc).toXmlDoc.toList with
+     | .ok (.elem _ a _) => a.map (fun p => (String.ofList p.1, String.ofList p.2))
+     | _ => []) = [("id", "a"), ("x", "1"), ("source", "s")] := by decide +kernel
 
 /-! ## Non-vacuity: a concrete two-key export
 
